@@ -189,3 +189,57 @@ def _generation(spec, model):
         if r['name'] == spec['name']:
             return {'confirmed': not r['ok'], 'observed': r['detail'], 'expected': 'every isotherm keeps its own parameters; the enthalpy is the generating one'}
     return {'confirmed': False, 'error': 'case not found'}
+
+
+def zero_loading_cases():
+    """loading points that include zero loading (the default points of isotherms that start at the origin; an explicit 0 in the
+    list): every returned array has one entry per reported loading, in its position -- each positive loading carries the generating
+    dH (the zero loading itself has no defined enthalpy and is left free)"""
+    import warnings
+    import pygaps
+    import pygaps.characterisation as pgc
+    from pygaps.characterisation.isosteric_enth import isosteric_enthalpy_raw
+    pygaps.logger.disabled = True
+    dH = 25000.0
+    isos = [_mi(T, dH=dH) for T in (300.0, 280.0, 330.0)]
+    for tag, kw in (('default_points', {}), ('explicit_zero_in_the_middle', {'loading_points': [0.5, 0.0, 1.0, 2.0, 3.0]}), ('explicit_zero_first', {'loading_points': [0.0, 0.5, 1.0]})):
+        probs = []
+        try:
+            with warnings.catch_warnings():
+                warnings.simplefilter('ignore')
+                with numpy.errstate(all='ignore'):
+                    res = pgc.isosteric_enthalpy(isos, **kw)
+            load = numpy.asarray(res['loading'], dtype=float)
+            for key in ('isosteric_enthalpy', 'slopes', 'correlation', 'std_errs'):
+                if key in res and len(res[key]) != len(load):
+                    probs.append(f"{len(load)} loadings reported, {len(res[key])} values of {key}")
+            h = numpy.asarray(res['isosteric_enthalpy'], dtype=float)
+            if len(h) == len(load):
+                off = [float(x) for x, v in zip(load, h) if x > 0 and not abs(v - dH / 1000) <= 1e-6 * dH / 1000]
+                if off:
+                    probs.append(f"loadings {off[:3]} do not carry the generating enthalpy {dH / 1000}")
+        except Exception as exc:
+            probs.append(f"{type(exc).__name__}: {exc}"[:160])
+        yield {'name': f"zero_loading_point|{tag}", 'ok': not probs, 'detail': '; '.join(probs[:3])}
+    # the low-level routine: one row of pressures per loading in, one enthalpy per row out
+    try:
+        pr = numpy.array([[i.pressure_at(x) for i in isos] for x in (0.5, 1.0, 2.0)], dtype=float)
+        pr = numpy.vstack([pr[:1], numpy.zeros((1, 3)), pr[1:]])
+        with warnings.catch_warnings():
+            warnings.simplefilter('ignore')
+            with numpy.errstate(all='ignore'):
+                out = isosteric_enthalpy_raw(pr, numpy.array([300.0, 280.0, 330.0]))
+        n_out = len(out[0])
+        ok = n_out == len(pr) and numpy.allclose(numpy.asarray(out[0], dtype=float)[[0, 2, 3]], dH / 1000, rtol=1e-6)
+        detail = '' if ok else f"{len(pr)} rows of pressures in, {n_out} enthalpies out: {numpy.asarray(out[0])}"
+    except Exception as exc:
+        ok, detail = False, f"{type(exc).__name__}: {exc}"[:160]
+    yield {'name': 'zero_loading_point|raw_rows_in_rows_out', 'ok': bool(ok), 'detail': detail}
+
+
+@replayer('c19.zero_loading')
+def _zero_loading(spec, model):
+    for r in zero_loading_cases():
+        if r['name'] == spec['name']:
+            return {'confirmed': not r['ok'], 'observed': r['detail'], 'expected': 'one enthalpy per reported loading, in its position; dH at every positive loading'}
+    return {'confirmed': False, 'error': 'case not found'}
